@@ -41,9 +41,9 @@ CHECKS = {
     "C11": ("proof", "Lean theorems over Q: psi_free (for ANY psi with the digamma recurrence the KSG MI/CMI equal gamma-free harmonic-number forms), code_eq_spec (sort-whole-row/index-k/count-minus-one = k-th nearest OTHER sample / count of OTHER samples strictly inside, under tie-freeness, which is forced). KDE: definition = documented formula (thin), signed sums. Tie: exact rational value vs float result (1e-9) with near-tie filter; KDE Float evaluation of the same polymorphic definition vs sklearn-based implementation.",
             "digamma at integers = harmonic numbers (recurrence hypothesis; scipy trusted); sklearn KernelDensity bandwidth rules mirrored; float rounding by tolerance.",
             "Lean 4 proof + exact-rational brute-force evaluation"),
-    "C12": ("other", "Partial: Lean theorems over an abstract local-correction functional: translation, rotation (orthogonal maps preserve squared distances and neighbour sets), scaling by a>0 (H shifts by d*log a; rho and neighbour order scale), row permutation, MI/CMI definitions and clamp (geom_laws_partial: the four laws hold for every correction functional that is itself translation/rotation/scale-covariant). Tie: independent reference evaluation of the published formula (own one-sided Jacobi SVD, no LAPACK) vs the real function; the four laws checked directly on the real function with the predicted deltas; the seam between neighbour search and local correction spied and compared with the model's neighbour sets; distance matrices overwritten in place between calls.",
-            "LAPACK SVD and the covariance of singular values under rigid motions are runtime/numerical facts outside the theorems (Mathlib has no packaged singular-value invariance): checked numerically against the Jacobi reference.",
-            "Partial Lean proof + independent reference evaluation + metamorphic laws"),
+    "C12": ("proof", "Lean theorems over R with Mathlib's singular values: the local correction is DEFINED mathematically (corrMath: ellipsoid count via the basis-free quadratic form z^T (Y^T Y)^-1 z <= 1, guarded log singular-value ratios) and geom_laws_real proves translation, rotation (unconditional), scaling (+ d log a, under guard-inactivity) and sample-order invariance of the whole estimator with no hypothesis about the correction; inEll_iff_svd_sum shows the SVD-based sum of the code equals the quadratic form for EVERY right singular basis; MI/CMI are the documented signed sums with clamp. Tie: independent reference evaluation of the published formula (own Jacobi SVD, no LAPACK) vs the real function at 1e-8; the four laws checked directly on the real function with the predicted deltas; neighbour/Y_i/Z_i seams vs the exact rational model; spectral tie: LAPACK's singular values vs exact symmetric polynomials (principal minors of Y^T Y) and every hyperellipsoid_check decision vs the exact Cramer quadratic form; distance matrices overwritten in place between calls.",
+            "LAPACK's floating-point SVD = the mathematical SVD, and log/sqrt rounding, are outside the theorems (numerically tied). For k < d the Gram matrix is singular and the code's ellipsoid count is rounding noise: the mathematical model is not claimed faithful there and the laws are decided by the direct metamorphic check and the reference only.",
+            "Lean 4 proof (Mathlib singular values) + exact spectral tie + independent reference evaluation + metamorphic laws"),
     "C13": ("proof", "Lean theorems for any ordered field and abstract pmf: loop_invariant/run_closed_form (the while loop equals the closed form), cont_mono/stop_index_mono (a vector call runs at least the terms of every scalar call), vector_is_scalar_plus_tail, tail_bound, elementwise_independent, zero-rate entries exactly 0, joint_def; negative witness for the pinned min rule. Tie: Float instance of the same definition + independent log-space reference vs poisson_entropy on a dense grid [0,500], tiny rates, mixed vectors/matrices; joint entropy exact.",
             "Absolute accuracy 1e-9 against the infinite series (c13_accuracy_partial) is checked numerically only (needs Poisson tail bounds and SciPy's pmf error).",
             "Lean 4 proof (loop invariant) + reference evaluation"),
